@@ -49,15 +49,16 @@ def relaxCounts {K : Type} [LT K] [DecidableLT K] (tol : K) (relaxsteps climbste
     (dsRelax dsClimb : List K) : Nat × Nat :=
   (phaseSteps tol relaxsteps dsRelax, phaseSteps tol climbsteps dsClimb)
 
-/-- `maxmap` of `ISMPath.relax`: the indices of the images whose energy is strictly above both neighbours
-    (`hstack([False, (E[1:-1] > E[:-2]) & (E[1:-1] > E[2:]), False])`), in path order; `i` is the index of
-    the first energy of the list.  End images never qualify; equal neighbouring energies (a plateau) do not either. -/
+/-- `maxmap` of `ISMPath.relax`: the indices of the images whose energy is strictly above the previous image's and
+    not below the next image's (`hstack([False, (E[1:-1] > E[:-2]) & (E[1:-1] >= E[2:]), False])`), in path order;
+    `i` is the index of the first energy of the list.  End images never qualify; of a flat top (the two central
+    images of a mirror-symmetric string) the first image qualifies. -/
 def localMaxima {K : Type} [LT K] [DecidableLT K] : Nat → List K → List Nat
   | i, a :: b :: c :: t =>
-    if a < b ∧ c < b then (i + 1) :: localMaxima (i + 1) (b :: c :: t) else localMaxima (i + 1) (b :: c :: t)
+    if a < b ∧ ¬ b < c then (i + 1) :: localMaxima (i + 1) (b :: c :: t) else localMaxima (i + 1) (b :: c :: t)
   | _, _ => []
 
-/-- the climbing images chosen by `relax(climbpoints=cp)`: the first `cp` interior strict local maxima. -/
+/-- the climbing images chosen by `relax(climbpoints=cp)`: the first `cp` interior local maxima. -/
 def climbIndices {K : Type} [LT K] [DecidableLT K] (cp : Nat) (E : List K) : List Nat :=
   (localMaxima 0 E).take cp
 
